@@ -2,19 +2,30 @@ import JunoModel.C03.ProofsNode
 import JunoModel.C03.ProofsLegacy
 import JunoModel.C03.ProofsSys
 import JunoModel.C03.ProofsCasm
+import JunoModel.C03.ProofsPatch
 /-!
-C03 — property theorems (statements only; helper lemmas are in `Proofs*.lean`).
+C03 — property theorems (statements only; helper lemmas are in `Proofs*.lean`; statements about
+proposed patches that are not in the tree are in `ProofsPatch.lean` and are NOT obligations).
 
 Reading guide. `run be (Node.init be) ops = some nd`: the history `ops` (block additions and head
-reverts) ran on a fresh node and left `nd`; a history on which the real node fails (a guard of
-`Update`/`Revert` fires) is not a history of the property. `OpsWF ops`: every stored diff is a
-well-formed state diff (`Diff.WF`: sections are maps, no contract deployed and replaced by the same
-diff, system contracts only receive storage writes). `nd.chain`: the state diffs of the blocks the
-node holds, newest first; `absAt nd.chain n` the abstract state after block `n` = fold of the
-diffs `0..n` (`absOf`), `AbsSt.read` the answer the property demands: the value, not-found for
-contracts / classes that do not exist yet. `q.ordinary`: the query is about a contract that
-enters the state through `DeployedContracts`, or about a class; the system contracts 0x1/0x2
-(existence implementation defined) have their own theorems.
+reverts) ran on a fresh node and left `nd`; that histories of valid blocks do run is
+`valid_history_runs`. `OpsWF ops`: every stored diff is a well-formed state diff (`Diff.WF`:
+sections are maps, no class hash listed twice in the declared sections, no contract deployed and
+replaced by the same diff, system contracts only receive storage writes). `OpsFresh ops []`: no
+block hash is used twice on the node at the same time (collision-freeness of the block hash).
+`nd.chain`: the state diffs of the blocks the node holds, newest first; `absAt nd.chain n` the
+abstract state after block `n` = fold of the diffs `0..n` (`absOf`), `AbsSt.read` the answer the
+property demands: the value, not-found for contracts / classes that do not exist yet. `decl` (the
+answer for a class) is the block of the FIRST REGISTRATION of the class hash: its declaration, or
+the block in which sync supplied its definition for a contract deployed with a class that was never
+declared (`Diff.extraClasses`) — juno registers both the same way. `q.ordinary`: the query is about
+a contract that enters the state through `DeployedContracts`, or about a class; the system contracts
+0x1/0x2 (existence implementation defined) have their own theorems. The model's node has no pruner
+and no retention floor: all statements are about an UNPRUNED node (C16 owns pruning).
+
+Variants. `Cfg.current` = the tree (`leafFix` b4efaf4 and `histOrderFix` 904a370 applied,
+`sysProbeFix` proposed only). Theorems named `*_before_<commit>` are regression witnesses for
+defects that are fixed in the tree; `*_asFound_counterexample` are defects still in the tree.
 -/
 namespace Juno.C03.Props
 open Juno.C03
@@ -29,21 +40,22 @@ theorem run_chain {σ : Type} (be : Backend σ) (ops : List Op) (nd : Node σ)
 address / slot / class hash: the historical reader answers exactly what the state diffs up to
 and including block `n` give. Holds for every variant `cfg` of the code. -/
 theorem new_read_correct (cfg : Cfg) (ops : List Op) (nd : Node NState)
-    (hrun : run (newBackend cfg) (Node.init (newBackend cfg)) ops = some nd) (hwf : OpsWF ops)
+    (hrun : run (newBackend cfg) (Node.init (newBackend cfg)) ops = some nd) (hwf : OpsWF ops) (hfr : OpsFresh ops [])
     (n : Nat) (hn : n < nd.blocks.length) (q : Query) (hq : q.ordinary) :
     nd.read (newBackend cfg) (.num n) q = some ((absAt nd.chain n).read q) := by
   have hinv := run_invariant (newBackend cfg) (NInv cfg)
     (fun ch s s' d hI hd hu => ninv_store cfg ch s s' d hI hd hu)
     (fun d rest s s' hI hr => ninv_revert cfg d rest s s' hI hr)
     ops (Node.init (newBackend cfg)) nd (ninv_init cfg) hwf hrun
-  simp only [Node.read, Node.resolve, hn, if_true]
+  have hidx := run_idxInv _ ops _ nd (idxInv_init _) hfr hrun
+  simp only [Node.read, resolve_num _ nd hidx n hn]
   exact congrArg some (ninv_histRead cfg nd.chain nd.st hinv n q hq)
 
 /-- NEW BACKEND, head view: class hash, nonce and declared classes are those of the abstract state
 after the last block (not-found when absent); a storage slot reads as its value — zero when unset,
 also for an address without contract (juno's `StateReader.ContractStorage` contract; the RPC layer
 asks for the class hash first). The storage part needs the repaired trie (`leafFix`), see
-`new_head_storage_asFound_counterexample`. -/
+`new_head_storage_before_b4efaf4`. -/
 theorem new_head_read_correct (cfg : Cfg) (ops : List Op) (nd : Node NState)
     (hrun : run (newBackend cfg) (Node.init (newBackend cfg)) ops = some nd) (hwf : OpsWF ops)
     (hne : nd.blocks ≠ []) :
@@ -84,7 +96,7 @@ included) leaves a system contract with an empty storage that was not empty befo
 a slot of 0x1/0x2 that is non-zero after block `n` is returned as it is by the view of block `n`. -/
 theorem new_system_storage_read_nodrain_partial (cfg : Cfg) (ops : List Op) (nd : Node NState)
     (hrun : run (newBackend cfg) (Node.init (newBackend cfg)) ops = some nd)
-    (hok : OpsOK (fun ch d => d.WF ∧ NoDrainStep ch d) ops [])
+    (hok : OpsOK (fun ch d => d.WF ∧ NoDrainStep ch d) ops []) (hfr : OpsFresh ops [])
     (n : Nat) (hn : n < nd.blocks.length) (a : Addr) (k : Slot) (ha : isSystem a = true)
     (hnz : (absAt nd.chain n).stor a k ≠ 0) :
     nd.read (newBackend cfg) (.num n) (.storage a k) = some (.ok ((absAt nd.chain n).stor a k)) := by
@@ -92,30 +104,70 @@ theorem new_system_storage_read_nodrain_partial (cfg : Cfg) (ops : List Op) (nd 
     (fun ch s s' d hI hP hu => nsys_store cfg ch s s' d hI hP hu)
     (fun d rest s s' hI hr => nsys_revert cfg d rest s s' hI hr)
     ops (Node.init (newBackend cfg)) nd (nsys_init cfg) hok hrun
-  simp only [Node.read, Node.resolve, hn, if_true]
+  have hidx := run_idxInv _ ops _ nd (idxInv_init _) hfr hrun
+  simp only [Node.read, resolve_num _ nd hidx n hn]
   exact congrArg some (nsys_histRead cfg nd.chain nd.st hs n a k ha hnz)
 
-/-- NEW BACKEND, system contracts 0x1/0x2, views by number: a storage read never returns a wrong
-value (it is the value the diffs give, or not-found), in every variant; in the variant without the
-deployment probe for system contracts (`sysProbeFix`) it is always the value. -/
+/-- NEW BACKEND, any address including the system contracts 0x1/0x2, views by number: a storage
+read never returns a wrong value: it is the value the diffs give, or not-found. (That it is the
+value whenever that is non-zero is `new_system_storage_read_nodrain_partial`, false in general:
+`new_system_asFound_counterexample`.) -/
 theorem new_system_storage_read_partial (cfg : Cfg) (ops : List Op) (nd : Node NState)
-    (hrun : run (newBackend cfg) (Node.init (newBackend cfg)) ops = some nd) (hwf : OpsWF ops)
+    (hrun : run (newBackend cfg) (Node.init (newBackend cfg)) ops = some nd) (hwf : OpsWF ops) (hfr : OpsFresh ops [])
     (n : Nat) (hn : n < nd.blocks.length) (a : Addr) (k : Slot) :
-    (nd.read (newBackend cfg) (.num n) (.storage a k) = some .notfound ∨
-      nd.read (newBackend cfg) (.num n) (.storage a k) = some (.ok ((absAt nd.chain n).stor a k))) ∧
-    (cfg.sysProbeFix = true → isSystem a = true →
-      nd.read (newBackend cfg) (.num n) (.storage a k) = some (.ok ((absAt nd.chain n).stor a k))) := by
+    nd.read (newBackend cfg) (.num n) (.storage a k) = some .notfound ∨
+      nd.read (newBackend cfg) (.num n) (.storage a k) = some (.ok ((absAt nd.chain n).stor a k)) := by
   have hinv := run_invariant (newBackend cfg) (NInv cfg)
     (fun ch s s' d hI hd hu => ninv_store cfg ch s s' d hI hd hu)
     (fun d rest s s' hI hr => ninv_revert cfg d rest s s' hI hr)
     ops (Node.init (newBackend cfg)) nd (ninv_init cfg) hwf hrun
   have h := ninv_histRead_system cfg nd.chain nd.st hinv n a k
-  simp only [Node.read, Node.resolve, hn, if_true]
-  refine ⟨?_, ?_⟩
-  · rcases h.1 with e | e
-    · left; exact congrArg some e
-    · right; exact congrArg some e
-  · intro h1 h2; exact congrArg some (h.2 h1 h2)
+  have hidx := run_idxInv _ ops _ nd (idxInv_init _) hfr hrun
+  simp only [Node.read, resolve_num _ nd hidx n hn]
+  rcases h.1 with e | e
+  · left; exact congrArg some e
+  · right; exact congrArg some e
+
+/-- NEW BACKEND as found, existence of the system contracts 0x1/0x2 (class hash and nonce queries),
+no block draining a system contract: on the view of block `n` and on the head view both read 0 when
+the contract has a non-zero slot in that state, and not-found when it has none. (The RPC handlers
+ask for the class hash before the storage, so this decides whether `getStorageAt(0x1, …)` answers.) -/
+theorem new_system_existence_nodrain (cfg : Cfg) (hc : cfg.sysProbeFix = false) (ops : List Op) (nd : Node NState)
+    (hrun : run (newBackend cfg) (Node.init (newBackend cfg)) ops = some nd)
+    (hok : OpsOK (fun ch d => d.WF ∧ NoDrainStep ch d) ops []) (hfr : OpsFresh ops [])
+    (a : Addr) (ha : isSystem a = true) :
+    (∀ n, n < nd.blocks.length →
+      (NonEmpty (absAt nd.chain n) a →
+        nd.read (newBackend cfg) (.num n) (.classHash a) = some (.ok 0) ∧
+        nd.read (newBackend cfg) (.num n) (.nonce a) = some (.ok 0)) ∧
+      (¬ NonEmpty (absAt nd.chain n) a →
+        nd.read (newBackend cfg) (.num n) (.classHash a) = some .notfound ∧
+        nd.read (newBackend cfg) (.num n) (.nonce a) = some .notfound)) ∧
+    (nd.blocks ≠ [] →
+      (NonEmpty (absOf nd.chain) a →
+        nd.read (newBackend cfg) .head (.classHash a) = some (.ok 0) ∧
+        nd.read (newBackend cfg) .head (.nonce a) = some (.ok 0)) ∧
+      (¬ NonEmpty (absOf nd.chain) a →
+        nd.read (newBackend cfg) .head (.classHash a) = some .notfound ∧
+        nd.read (newBackend cfg) .head (.nonce a) = some .notfound)) := by
+  have hs := run_invariant' (newBackend cfg) (NSys cfg) (fun ch d => d.WF ∧ NoDrainStep ch d)
+    (fun ch s s' d hI hP hu => nsys_store cfg ch s s' d hI hP hu)
+    (fun d rest s s' hI hr => nsys_revert cfg d rest s s' hI hr)
+    ops (Node.init (newBackend cfg)) nd (nsys_init cfg) hok hrun
+  have hidx := run_idxInv _ ops _ nd (idxInv_init _) hfr hrun
+  constructor
+  · intro n hn
+    have hlen : n < nd.chain.length := by simpa [Node.chain] using hn
+    have h := nsys_histRead_existence cfg hc nd.chain nd.st hs n hlen a ha
+    simp only [Node.read, resolve_num _ nd hidx n hn]
+    exact ⟨fun hne => ⟨congrArg some (h.1 hne).1, congrArg some (h.1 hne).2⟩,
+      fun he => ⟨congrArg some (h.2 he).1, congrArg some (h.2 he).2⟩⟩
+  · intro hne
+    have hemp : nd.blocks.isEmpty = false := by cases h : nd.blocks <;> simp_all
+    have h := nsys_headRead_existence cfg nd.chain nd.st hs a ha
+    simp only [Node.read, Node.resolve, hemp, Bool.false_eq_true, if_false]
+    exact ⟨fun hne => ⟨congrArg some (h.1 hne).1, congrArg some (h.1 hne).2⟩,
+      fun he => ⟨congrArg some (h.2 he).1, congrArg some (h.2 he).2⟩⟩
 
 /-- LEGACY BACKEND, views by number: after any history, for every retained block `n`, every
 contract address / slot / class hash: the historical reader (first log strictly above `n`, else
@@ -124,14 +176,15 @@ and including block `n` give. The invariant behind it (`LInv`): every change of 
 has a log at b holding the value before b; the only writes without log are zero written to an
 unset slot (no change) and the class hash set by a deployment (masked by the deployment height). -/
 theorem legacy_read_correct (ops : List Op) (nd : Node LState)
-    (hrun : run legacyBackend (Node.init legacyBackend) ops = some nd) (hwf : OpsWF ops)
+    (hrun : run legacyBackend (Node.init legacyBackend) ops = some nd) (hwf : OpsWF ops) (hfr : OpsFresh ops [])
     (n : Nat) (hn : n < nd.blocks.length) (q : Query) (hq : q.ordinary) :
     nd.read legacyBackend (.num n) q = some ((absAt nd.chain n).read q) := by
   have hinv := run_invariant legacyBackend LInv
     (fun ch s s' d hI hd hu => linv_store ch s s' d hI hd hu)
     (fun d rest s s' hI hr => linv_revert d rest s s' hI hr)
     ops (Node.init legacyBackend) nd linv_init hwf hrun
-  simp only [Node.read, Node.resolve, hn, if_true]
+  have hidx := run_idxInv _ ops _ nd (idxInv_init _) hfr hrun
+  simp only [Node.read, resolve_num _ nd hidx n hn]
   exact congrArg some (linv_histRead nd.chain nd.st hinv n q hq)
 
 /-- LEGACY BACKEND, head view: as `new_head_read_correct`, the storage part without condition. -/
@@ -163,7 +216,7 @@ theorem legacy_head_read_correct (ops : List Op) (nd : Node LState)
 /-- LEGACY BACKEND, any address including the system contracts 0x1/0x2, views by number: a slot
 that is non-zero after block `n` is returned as it is; a zero slot reads as zero or not-found. -/
 theorem legacy_system_storage_read (ops : List Op) (nd : Node LState)
-    (hrun : run legacyBackend (Node.init legacyBackend) ops = some nd) (hwf : OpsWF ops)
+    (hrun : run legacyBackend (Node.init legacyBackend) ops = some nd) (hwf : OpsWF ops) (hfr : OpsFresh ops [])
     (n : Nat) (hn : n < nd.blocks.length) (a : Addr) (k : Slot) :
     ((absAt nd.chain n).stor a k ≠ 0 →
       nd.read legacyBackend (.num n) (.storage a k) = some (.ok ((absAt nd.chain n).stor a k))) ∧
@@ -174,7 +227,8 @@ theorem legacy_system_storage_read (ops : List Op) (nd : Node LState)
     (fun d rest s s' hI hr => linv_revert d rest s s' hI hr)
     ops (Node.init legacyBackend) nd linv_init hwf hrun
   have h := linv_histRead_storage_any nd.chain nd.st hinv n a k
-  simp only [Node.read, Node.resolve, hn, if_true]
+  have hidx := run_idxInv _ ops _ nd (idxInv_init _) hfr hrun
+  simp only [Node.read, resolve_num _ nd hidx n hn]
   refine ⟨fun hz => congrArg some (h.1 hz), ?_⟩
   rcases h.2 with e | e
   · left; exact congrArg some e
@@ -184,7 +238,7 @@ theorem legacy_system_storage_read (ops : List Op) (nd : Node LState)
 variant) gives the same answer for every retained block and every ordinary query. -/
 theorem backends_agree_reads (cfg : Cfg) (ops : List Op) (nl : Node LState) (nn : Node NState)
     (hl : run legacyBackend (Node.init legacyBackend) ops = some nl)
-    (hnw : run (newBackend cfg) (Node.init (newBackend cfg)) ops = some nn) (hwf : OpsWF ops)
+    (hnw : run (newBackend cfg) (Node.init (newBackend cfg)) ops = some nn) (hwf : OpsWF ops) (hfr : OpsFresh ops [])
     (n : Nat) (hn : n < (chainOf ops).length) (q : Query) (hq : q.ordinary) :
     nl.read legacyBackend (.num n) q = nn.read (newBackend cfg) (.num n) q := by
   have cl := run_chain legacyBackend ops nl hl
@@ -195,119 +249,28 @@ theorem backends_agree_reads (cfg : Cfg) (ops : List Op) (nl : Node LState) (nn 
   have hnn : n < nn.blocks.length := by
     have : nn.blocks.length = nn.chain.length := by simp [Node.chain]
     rw [this, cn]; exact hn
-  rw [legacy_read_correct ops nl hl hwf n hnl q hq, new_read_correct cfg ops nn hnw hwf n hnn q hq, cl, cn]
-
-/-- ATTEMPTED operations (both backends): in a history of attempts, those that fail — a block
-`Update` rejects, a `Simulate`, a commit that is lost, a `RevertHead` that fails — leave the node as
-it was (`runL`), so after any such history every view by number still answers from the ACCEPTED
-chain `nd.chain`. (The model has no way to write around the batch: that part is the harness'
-discarded-operations check.) -/
-theorem reads_after_attempts (cfg : Cfg) (ops : List Op) (hwf : OpsWF ops)
-    (n : Nat) (q : Query) (hq : q.ordinary) :
-    (n < (runL (newBackend cfg) (Node.init (newBackend cfg)) ops).blocks.length →
-      (runL (newBackend cfg) (Node.init (newBackend cfg)) ops).read (newBackend cfg) (.num n) q =
-        some ((absAt (runL (newBackend cfg) (Node.init (newBackend cfg)) ops).chain n).read q)) ∧
-    (n < (runL legacyBackend (Node.init legacyBackend) ops).blocks.length →
-      (runL legacyBackend (Node.init legacyBackend) ops).read legacyBackend (.num n) q =
-        some ((absAt (runL legacyBackend (Node.init legacyBackend) ops).chain n).read q)) := by
-  constructor
-  · intro hn
-    have hinv := runL_invariant (newBackend cfg) (NInv cfg)
-      (fun ch s s' d hI hd hu => ninv_store cfg ch s s' d hI hd hu)
-      (fun d rest s s' hI hr => ninv_revert cfg d rest s s' hI hr)
-      ops (Node.init (newBackend cfg)) (ninv_init cfg) hwf
-    simp only [Node.read, Node.resolve, hn, if_true]
-    exact congrArg some (ninv_histRead cfg _ _ hinv n q hq)
-  · intro hn
-    have hinv := runL_invariant legacyBackend LInv
-      (fun ch s s' d hI hd hu => linv_store ch s s' d hI hd hu)
-      (fun d rest s s' hI hr => linv_revert d rest s s' hI hr)
-      ops (Node.init legacyBackend) linv_init hwf
-    simp only [Node.read, Node.resolve, hn, if_true]
-    exact congrArg some (linv_histRead _ _ hinv n q hq)
-
-/-- HELD readers (both backends): a historical reader is its block number `k` (juno's
-`stateHistory{blockNum, state}` over the live database). Opened on node `nd₁` and used later on
-`nd₂` = `nd₁` after any further history `ops₂`, it still answers for block `k` of the chain it was
-opened on, as long as that chain's blocks `0..k` are still there (`hsame`: nothing at or below `k`
-was reverted). A `HeadState` reader is a live view on both backends (it answers for the current
-head: `*_head_read_correct` applied to `nd₂`). -/
-theorem held_reader_stable (cfg : Cfg) (ops₁ ops₂ : List Op) (hwf : OpsWF (ops₁ ++ ops₂))
-    (k : Nat) (q : Query) (hq : q.ordinary) :
-    let nn₁ := runL (newBackend cfg) (Node.init (newBackend cfg)) ops₁
-    let nn₂ := runL (newBackend cfg) nn₁ ops₂
-    let nl₁ := runL legacyBackend (Node.init legacyBackend) ops₁
-    let nl₂ := runL legacyBackend nl₁ ops₂
-    (nn₂.chain.drop (nn₂.chain.length - 1 - k) = nn₁.chain.drop (nn₁.chain.length - 1 - k) →
-      (newBackend cfg).histRead nn₂.st k q = (absAt nn₁.chain k).read q) ∧
-    (nl₂.chain.drop (nl₂.chain.length - 1 - k) = nl₁.chain.drop (nl₁.chain.length - 1 - k) →
-      legacyBackend.histRead nl₂.st k q = (absAt nl₁.chain k).read q) := by
-  intro nn₁ nn₂ nl₁ nl₂
-  have hwf1 : OpsWF ops₁ := fun id d hm => hwf id d (List.mem_append.mpr (Or.inl hm))
-  have hwf2 : OpsWF ops₂ := fun id d hm => hwf id d (List.mem_append.mpr (Or.inr hm))
-  constructor
-  · intro hsame
-    have h1 := runL_invariant (newBackend cfg) (NInv cfg)
-      (fun ch s s' d hI hd hu => ninv_store cfg ch s s' d hI hd hu)
-      (fun d rest s s' hI hr => ninv_revert cfg d rest s s' hI hr)
-      ops₁ (Node.init (newBackend cfg)) (ninv_init cfg) hwf1
-    have h2 := runL_invariant (newBackend cfg) (NInv cfg)
-      (fun ch s s' d hI hd hu => ninv_store cfg ch s s' d hI hd hu)
-      (fun d rest s s' hI hr => ninv_revert cfg d rest s s' hI hr)
-      ops₂ nn₁ h1 hwf2
-    rw [← absAt_of_common nn₁.chain nn₂.chain k hsame]
-    exact ninv_histRead cfg nn₂.chain nn₂.st h2 k q hq
-  · intro hsame
-    have h1 := runL_invariant legacyBackend LInv
-      (fun ch s s' d hI hd hu => linv_store ch s s' d hI hd hu)
-      (fun d rest s s' hI hr => linv_revert d rest s s' hI hr)
-      ops₁ (Node.init legacyBackend) linv_init hwf1
-    have h2 := runL_invariant legacyBackend LInv
-      (fun ch s s' d hI hd hu => linv_store ch s s' d hI hd hu)
-      (fun d rest s s' hI hr => linv_revert d rest s s' hI hr)
-      ops₂ nl₁ h1 hwf2
-    rw [← absAt_of_common nl₁.chain nl₂.chain k hsame]
-    exact linv_histRead nl₂.chain nl₂.st h2 k q hq
-
-/-- TORN READS, legacy backend (concurrent store during one query): with the re-scan of
-proposed-fixes/C03-legacy-history-read-rescan-after-head.diff a storage read of block `n` whose log
-scan saw the node after history `ops₁` and whose head read saw it after `ops₁ ++ ops₂` still
-returns block `n`'s value, provided `ops₂` leaves blocks `0..n` in place. Without the re-scan it
-does not: `legacy_torn_read_asFound_counterexample`. -/
-theorem legacy_torn_read_rescan (ops₁ ops₂ : List Op) (hwf : OpsWF (ops₁ ++ ops₂)) (n : Nat) (a : Addr) (k : Slot) :
-    let nl₁ := runL legacyBackend (Node.init legacyBackend) ops₁
-    let nl₂ := runL legacyBackend nl₁ ops₂
-    nl₂.chain.drop (nl₂.chain.length - 1 - n) = nl₁.chain.drop (nl₁.chain.length - 1 - n) →
-    LState.tornStorageValue true nl₁.st nl₂.st n a k = (absAt nl₁.chain n).stor a k := by
-  intro nl₁ nl₂ hsame
-  have hwf1 : OpsWF ops₁ := fun id d hm => hwf id d (List.mem_append.mpr (Or.inl hm))
-  have hwf2 : OpsWF ops₂ := fun id d hm => hwf id d (List.mem_append.mpr (Or.inr hm))
-  have h1 := runL_invariant legacyBackend LInv
-    (fun ch s s' d hI hd hu => linv_store ch s s' d hI hd hu)
-    (fun d rest s s' hI hr => linv_revert d rest s s' hI hr)
-    ops₁ (Node.init legacyBackend) linv_init hwf1
-  have h2 := runL_invariant legacyBackend LInv
-    (fun ch s s' d hI hd hu => linv_store ch s s' d hI hd hu)
-    (fun d rest s s' hI hr => linv_revert d rest s s' hI hr)
-    ops₂ nl₁ h1 hwf2
-  exact linv_tornStorage nl₁.chain nl₂.chain nl₁.st nl₂.st h1 h2 n hsame a k
+  rw [legacy_read_correct ops nl hl hwf hfr n hnl q hq, new_read_correct cfg ops nn hnw hwf hfr n hnn q hq, cl, cn]
 
 /-- COMPILED CLASS HASHES (any backend: the metadata is kept by the block store, not by the state):
 `CompiledClassHash` on the view of block `n` is the compiled class hash in force after block `n` —
 the declared one, the migrated one from the block of the migration on, not-found before the
-declaration — and on the head view the one of the head. Hypothesis on every stored block (`CasmStep`,
-`MigVal`): a Sierra class is declared once, migrations only under protocol ≥ 0.14.1 and not of a
-class declared by the same diff, and a migration carries the blake2s hash juno stored at
-declaration (juno switches to its stored hash, not to the one in the diff). -/
-theorem casm_read_correct {σ : Type} (be : Backend σ) (ops : List Op) (nd : Node σ)
+declaration — and on the head view the one of the head. PARTIAL: hypotheses on every stored block
+are `CasmStep` (a Sierra class is declared once, migrations only under protocol ≥ 0.14.1 and not of
+a class declared by the same diff) and `MigOwnHash`: the hash a migration carries is the blake2s
+hash that came with the class's declaration. Without the latter the statement is false
+(`casm_migration_foreign_hash_counterexample`): juno ignores the hash in `MigratedClasses`. -/
+theorem casm_read_partial {σ : Type} (be : Backend σ) (ops : List Op) (nd : Node σ)
     (hrun : run be (Node.init be) ops = some nd)
-    (hok : OpsOK (fun ch d => CasmStep ch d ∧ MigVal ch d) ops []) (c : CHash) :
-    (∀ n, n < nd.blocks.length → nd.readCasm (.num n) c = some (casmRes (absAt nd.chain n) c)) ∧
-    (nd.blocks ≠ [] → nd.readCasm .head c = some (casmRes (absOf nd.chain) c)) := by
-  have hinv := run_minv be ops (Node.init be) nd minv_init hok hrun
+    (hok : OpsOK (fun ch d => CasmStep ch d ∧ MigOwnHash ch d) ops []) (hfr : OpsFresh ops []) (c : CHash) :
+    (∀ n, n < nd.blocks.length → nd.readCasm be (.num n) c = some (casmRes (absAt nd.chain n) c)) ∧
+    (nd.blocks ≠ [] → nd.readCasm be .head c = some (casmRes (absOf nd.chain) c)) := by
+  have hok' : OpsOK (fun ch d => CasmStep ch d ∧ MigVal ch d) ops [] :=
+    OpsOK.mono (fun ch d h => ⟨h.1, migVal_of_ownHash ch d h.2⟩) ops [] hok
+  have hinv := run_minv be ops (Node.init be) nd minv_init hok' hrun
+  have hidx := run_idxInv _ ops _ nd (idxInv_init _) hfr hrun
   constructor
   · intro n hn
-    simp only [Node.readCasm, Node.resolve, hn, if_true, hinv.recs c]
+    simp only [Node.readCasm, resolve_num _ nd hidx n hn, hinv.recs c]
     have h := metaOf_at nd.chain hinv.ok c n
     by_cases hmt : metaOf nd.chain c = none
     · simp only [hmt] at h ⊢; exact congrArg some h
@@ -322,24 +285,93 @@ theorem casm_read_correct {σ : Type} (be : Backend σ) (ops : List Op) (nd : No
     · obtain ⟨mt, hm⟩ := Option.ne_none_iff_exists'.mp hmt
       simp only [hm] at h ⊢; exact congrArg some h
 
-/-- Views by hash (any backend): the view of a stored block hash is the view of that block's
-number; a hash the node does not hold (never stored, or reverted) has no view; a number above the
-head has no view. With unique block hashes the hash of block `k` resolves to `k`
-(`numberOf_getElem`). -/
-theorem read_by_hash_spec {σ : Type} (be : Backend σ) (nd : Node σ) (q : Query) :
-    (∀ h k, numberOf nd.blocks h = some k → nd.read be (.hash h) q = nd.read be (.num k) q) ∧
-    (∀ h, h ∉ nd.blocks.map (·.1) → nd.read be (.hash h) q = none) ∧
-    (∀ n, nd.blocks.length ≤ n → nd.read be (.num n) q = none) := by
-  refine ⟨?_, ?_, ?_⟩
-  · intro h k e; rw [read_by_hash, e]; rfl
-  · intro h hm; rw [read_by_hash, (numberOf_none_iff nd.blocks h).mpr hm]; rfl
-  · intro n hn
-    have : ¬ n < nd.blocks.length := by omega
-    simp [Node.read, Node.resolve, this]
+/-- WHICH VIEWS EXIST (any backend). The node keeps a hash index (`BlockHeaderNumbersByHash`) that
+`Store` writes and `RevertHead` deletes from; views by number go through it (`pruner`'s retention
+check reads header → hash → index), views by hash start from it. After any history with distinct
+block hashes: the head view exists iff the node holds a block; block number `k` has a view iff
+`k` is below the height, and it is the view of `k`; the hash of the block that is now number `k`
+gives the view of `k`; a hash the node does not hold now — never stored, or reverted — gives none. -/
+theorem views_exist {σ : Type} (be : Backend σ) (ops : List Op) (nd : Node σ)
+    (hrun : run be (Node.init be) ops = some nd) (hfr : OpsFresh ops []) :
+    (nd.resolve be .head = if nd.blocks.isEmpty then none else some none) ∧
+    (∀ k, k < nd.blocks.length → nd.resolve be (.num k) = some (some k)) ∧
+    (∀ k, nd.blocks.length ≤ k → nd.resolve be (.num k) = none) ∧
+    (∀ k id, k < nd.blocks.length → nd.idAt k = some id → nd.resolve be (.hash id) = some (some k)) ∧
+    (∀ h, h ∉ nd.blocks.map (·.1) → nd.resolve be (.hash h) = none) := by
+  have hidx := run_idxInv _ ops _ nd (idxInv_init _) hfr hrun
+  refine ⟨rfl, fun k hk => resolve_num be nd hidx k hk, ?_, ?_, ?_⟩
+  · intro k hk
+    have : ¬ k < nd.blocks.length := by omega
+    simp [Node.resolve, this]
+  · intro k id hk hid
+    rw [idAt_lt nd k hk] at hid
+    rw [resolve_hash be nd hidx, ← Option.some.inj hid, numberOf_getElem nd.blocks hidx.nodup k hk]
+    rfl
+  · intro h hm
+    rw [resolve_hash be nd hidx, (numberOf_none_iff nd.blocks h).mpr hm]
+    rfl
 
-/-- the hash of block `k` resolves to `k` when the block hashes on the node are distinct -/
-theorem hash_resolves (bs : List (BlockId × Diff)) (hnd : (bs.map (·.1)).Nodup) (k : Nat) (hk : k < bs.length) :
-    numberOf bs (bs[bs.length - 1 - k]'(by omega)).1 = some k := numberOf_getElem bs hnd k hk
+/-- VIEWS BY HASH, both backends: the view of the hash of block `k` answers for block `k` exactly
+what the state diffs up to and including block `k` give. -/
+theorem read_by_hash_correct (cfg : Cfg) (ops : List Op) (hwf : OpsWF ops) (hfr : OpsFresh ops [])
+    (k : Nat) (id : BlockId) (q : Query) (hq : q.ordinary) :
+    (∀ nd, run (newBackend cfg) (Node.init (newBackend cfg)) ops = some nd → k < nd.blocks.length →
+      nd.idAt k = some id → nd.read (newBackend cfg) (.hash id) q = some ((absAt nd.chain k).read q)) ∧
+    (∀ nd, run legacyBackend (Node.init legacyBackend) ops = some nd → k < nd.blocks.length →
+      nd.idAt k = some id → nd.read legacyBackend (.hash id) q = some ((absAt nd.chain k).read q)) := by
+  constructor
+  · intro nd hrun hk hid
+    have hv := (views_exist (newBackend cfg) ops nd hrun hfr).2.2.2.1 k id hk hid
+    have hn := (views_exist (newBackend cfg) ops nd hrun hfr).2.1 k hk
+    have := new_read_correct cfg ops nd hrun hwf hfr k hk q hq
+    simp only [Node.read, hn] at this
+    simp only [Node.read, hv]
+    exact this
+  · intro nd hrun hk hid
+    have hv := (views_exist legacyBackend ops nd hrun hfr).2.2.2.1 k id hk hid
+    have hn := (views_exist legacyBackend ops nd hrun hfr).2.1 k hk
+    have := legacy_read_correct ops nd hrun hwf hfr k hk q hq
+    simp only [Node.read, hn] at this
+    simp only [Node.read, hv]
+    exact this
+
+/-- THE HEAD VIEW IS THE VIEW OF THE HEAD BLOCK, both backends (tree variant of the new backend):
+every ordinary query gets the same answer from `HeadState` and from the view by number of the last
+block — except a storage query for an address without contract, where the head reader answers 0
+(see `new_head_read_correct`). -/
+theorem head_view_is_top_block_view (cfg : Cfg) (hfix : cfg.leafFix = true) (ops : List Op) (hwf : OpsWF ops)
+    (hfr : OpsFresh ops []) (q : Query) (hq : q.ordinary) :
+    (∀ nd, run (newBackend cfg) (Node.init (newBackend cfg)) ops = some nd → nd.blocks ≠ [] →
+      (∀ a k, q = .storage a k → ((absOf nd.chain).dep a).isSome = true) →
+      nd.read (newBackend cfg) .head q = nd.read (newBackend cfg) (.num (nd.blocks.length - 1)) q) ∧
+    (∀ nd, run legacyBackend (Node.init legacyBackend) ops = some nd → nd.blocks ≠ [] →
+      (∀ a k, q = .storage a k → ((absOf nd.chain).dep a).isSome = true) →
+      nd.read legacyBackend .head q = nd.read legacyBackend (.num (nd.blocks.length - 1)) q) := by
+  constructor
+  · intro nd hrun hne hst
+    have hpos : 0 < nd.blocks.length := List.length_pos_iff.mpr hne
+    have hlen : nd.chain.length = nd.blocks.length := by simp [Node.chain]
+    rw [new_read_correct cfg ops nd hrun hwf hfr _ (by omega) q hq, absAt_ge nd.chain _ (by omega)]
+    have hh := new_head_read_correct cfg ops nd hrun hwf hne
+    cases q with
+    | classHash a => exact (hh.1 a hq).1
+    | nonce a => exact (hh.1 a hq).2
+    | cls c => exact hh.2.1 c
+    | storage a k =>
+      rw [hh.2.2 hfix a k]
+      simp [AbsSt.read, hst a k rfl]
+  · intro nd hrun hne hst
+    have hpos : 0 < nd.blocks.length := List.length_pos_iff.mpr hne
+    have hlen : nd.chain.length = nd.blocks.length := by simp [Node.chain]
+    rw [legacy_read_correct ops nd hrun hwf hfr _ (by omega) q hq, absAt_ge nd.chain _ (by omega)]
+    have hh := legacy_head_read_correct ops nd hrun hwf hne
+    cases q with
+    | classHash a => exact (hh.1 a hq).1
+    | nonce a => exact (hh.1 a hq).2
+    | cls c => exact hh.2.1 c
+    | storage a k =>
+      rw [hh.2.2 a k]
+      simp [AbsSt.read, hst a k rfl]
 
 /-! ### the code as found: counterexamples (defects of juno, replayed on the real code by the harness) -/
 
@@ -354,7 +386,7 @@ def staleLeafHistory : List Op :=
 
 /-- DEFECT (core/trie2 `Trie.delete`, fixed by b4efaf4): as found, the head view returns 4 for a slot
 whose value is 0 — the full-strength head statement fails without `leafFix`. -/
-theorem new_head_storage_asFound_counterexample :
+theorem new_head_storage_before_b4efaf4 :
     (run (newBackend Cfg.asFound) (Node.init (newBackend Cfg.asFound)) staleLeafHistory).map
       (fun nd => (nd.read (newBackend Cfg.asFound) .head (.storage 0x104 3), (absOf nd.chain).stor 0x104 3)) =
       some (some (.ok 4), 0) := by decide
@@ -381,7 +413,7 @@ def deployReplaceHistory : List Op :=
 applies them the other way round): as found the view of block 1 answers the deployed class 0x12c
 while the head view — and the abstract state, the legacy backend, the state root — have 0x12f.
 With the two loops in `Update`'s order (`histOrderFix`) all agree. -/
-theorem new_deploy_and_replace_asFound_counterexample :
+theorem new_deploy_and_replace_before_904a370 :
     (run (newBackend Cfg.asFound) (Node.init (newBackend Cfg.asFound)) deployReplaceHistory).map
       (fun nd => (nd.read (newBackend Cfg.asFound) (.num 1) (.classHash 0x66),
                   nd.read (newBackend Cfg.asFound) .head (.classHash 0x66), (absOf nd.chain).cls 0x66)) =
@@ -405,6 +437,36 @@ theorem legacy_torn_read_asFound_counterexample :
     (LState.tornStorageValue false nl₁.st nl₂.st 0 0x104 2, LState.tornStorageValue true nl₁.st nl₂.st 0 0x104 2,
       (absAt nl₁.chain 0).stor 0x104 2) = (2, 1, 1) := by decide
 
+/-- block 0 (protocol < 0.14.1) declares Sierra class 0x51 with compiled hash 0xa1; juno computes
+the blake2s hash 0xb1. Block 1 (≥ 0.14.1) migrates the class to 0xabc. -/
+def foreignMigrationHistory : List Op :=
+  [.store 1 { Diff.empty with declared1 := [⟨0x51, 0xa1, 0xb1⟩] },
+   .store 2 { Diff.empty with v2 := true, migrated := [(0x51, 0xabc)] }]
+
+/-- DEFECT, in the tree (blockchain/statebackend `storeCasmHashMetadata` → `ClassCasmHashMetadata.Migrate`
+only sets `migratedAt` and keeps the precomputed hash): after a migration whose hash is not the one
+juno computed, `CompiledClassHash` on the view of the migration block and on the head answers juno's
+own hash 0xb1, while the state diffs — and the class-trie leaf `Update` builds from them — say 0xabc.
+Both backends (the metadata is not the state's). -/
+theorem casm_migration_foreign_hash_counterexample :
+    (run (newBackend Cfg.current) (Node.init (newBackend Cfg.current)) foreignMigrationHistory).map
+      (fun nd => (nd.readCasm (newBackend Cfg.current) (.num 1) 0x51, nd.readCasm (newBackend Cfg.current) .head 0x51,
+                  casmRes (absAt nd.chain 1) 0x51)) =
+      some (some (.ok 0xb1), some (.ok 0xb1), .ok 0xabc) ∧
+    (run legacyBackend (Node.init legacyBackend) foreignMigrationHistory).map
+      (fun nd => (nd.readCasm legacyBackend (.num 1) 0x51, nd.readCasm legacyBackend .head 0x51)) =
+      some (some (.ok 0xb1), some (.ok 0xb1)) := by decide
+
+/-- BACKENDS DISAGREE on a block that lists a Cairo-0 class twice (`DeclaredV0Classes` is a slice):
+both store it, the new backend reverts it, the legacy `removeDeclaredClasses` fails on the second
+entry ("get class …: key not found") — the node cannot revert its head (C04's property; recorded
+here because `Diff.WF` excludes such diffs and the model follows the code on them). -/
+theorem legacy_revert_duplicate_declaration_counterexample :
+    let ops : List Op := [.store 1 { Diff.empty with declared0 := [0xd100, 0xd100] }, .revert]
+    (run (newBackend Cfg.current) (Node.init (newBackend Cfg.current)) ops).isSome = true ∧
+    (run legacyBackend (Node.init legacyBackend) (ops.take 1)).isSome = true ∧
+    (run legacyBackend (Node.init legacyBackend) ops).isSome = false := by decide
+
 /-! ### non-vacuity: the hypotheses are satisfiable by histories that exercise the encodings -/
 
 /-- deploy + write, overwrite + nonce, replace class, revert, write again: runs, is well-formed,
@@ -422,6 +484,8 @@ example : OpsWF exampleHistory := by
   apply Diff.wfb_sound
   simp only [exampleHistory, List.mem_cons, List.not_mem_nil, or_false, Op.store.injEq, reduceCtorEq, false_or] at hm
   rcases hm with h | h | h | h <;> (obtain ⟨_, rfl⟩ := h; decide)
+
+example : OpsFresh exampleHistory [] := by simp [exampleHistory, OpsFresh]
 
 /-- … and the no-drain hypothesis (block 3 writes to the system contract 0x1 and leaves it non-empty) -/
 example : OpsOK (fun ch d => d.WF ∧ NoDrainStep ch d) exampleHistory [] := by
@@ -465,22 +529,66 @@ def casmHistory : List Op :=
    .revert,
    .store 3 { Diff.empty with v2 := true, migrated := [(0x51, 0xb1)] }]
 
-example : OpsOK (fun ch d => CasmStep ch d ∧ MigVal ch d) casmHistory [] := by
+example : OpsOK (fun ch d => CasmStep ch d ∧ MigOwnHash ch d) casmHistory [] := by
   simp only [casmHistory, OpsOK, List.tail_cons, and_true]
   refine ⟨⟨⟨by decide, by decide, by decide, by decide, by decide⟩, by intro p hp; cases hp⟩,
     ⟨⟨by decide, by decide, by decide, by decide, by decide⟩, ?_⟩,
     ⟨⟨by decide, by decide, by decide, by decide, by decide⟩, ?_⟩⟩
   all_goals
-    intro p hp mt hmt
-    simp only [List.mem_singleton] at hp
-    subst hp
-    simp [metaOf] at hmt
-    subst hmt
+    intro p hp dd hdd x hx he
+    simp only [List.mem_singleton] at hp hdd
+    subst hp hdd
+    simp only [List.mem_singleton] at hx
+    subst hx
     rfl
 
+example : OpsFresh casmHistory [] := by simp [casmHistory, OpsFresh]
+
 example : (run legacyBackend (Node.init legacyBackend) casmHistory).map
-    (fun nd => [nd.readCasm (.num 0) 0x51, nd.readCasm (.num 1) 0x51, nd.readCasm .head 0x51,
-                nd.readCasm (.num 0) 0x52, nd.readCasm .head 0x52]) =
+    (fun nd => [nd.readCasm legacyBackend (.num 0) 0x51, nd.readCasm legacyBackend (.num 1) 0x51,
+                nd.readCasm legacyBackend .head 0x51,
+                nd.readCasm legacyBackend (.num 0) 0x52, nd.readCasm legacyBackend .head 0x52]) =
     some [some (.ok 0xa1), some (.ok 0xb1), some (.ok 0xb1), some .notfound, some .notfound] := by decide
+
+/-- a system slot that survives: block 0 sets 0x1[2] = 5, block 1 overwrites it with 6 and sets
+0x1[3] = 7, block 2 (a block hash used before, after its revert) touches something else -/
+def systemHistory : List Op :=
+  [.store 1 { Diff.empty with storage := [(1, [(2, 5)])] },
+   .store 2 { Diff.empty with storage := [(1, [(2, 6), (3, 7)])] },
+   .store 3 { Diff.empty with storage := [(1, [(3, 0)])] },
+   .revert,
+   .store 3 { Diff.empty with storage := [(2, [(9, 1)])] }]
+
+/-- the hypotheses of `new_system_storage_read_nodrain_partial` / `new_system_existence_nodrain`
+are jointly satisfiable with `hnz`: the history is no-drain and fresh, and in the final chain the
+slot 0x1[2] is 5 at block 0 (read at the earlier block), 6 at blocks 1 and 2 -/
+example : OpsOK (fun ch d => d.WF ∧ NoDrainStep ch d) systemHistory [] ∧ OpsFresh systemHistory [] ∧
+    (absAt (chainOf systemHistory) 0).stor 1 2 = 5 ∧ (absAt (chainOf systemHistory) 2).stor 1 2 = 6 := by
+  refine ⟨?_, by simp [systemHistory, OpsFresh], by decide, by decide⟩
+  simp only [systemHistory, OpsOK, List.tail_cons, and_true]
+  refine ⟨⟨Diff.wfb_sound _ (by decide), ?_⟩, ⟨Diff.wfb_sound _ (by decide), ?_⟩,
+    ⟨Diff.wfb_sound _ (by decide), ?_⟩, ⟨Diff.wfb_sound _ (by decide), ?_⟩⟩
+  · intro a _ hk _
+    simp only [List.map_cons, List.map_nil, List.mem_singleton] at hk
+    subst hk; exact ⟨2, by decide⟩
+  · intro a _ hk _
+    simp only [List.map_cons, List.map_nil, List.mem_singleton] at hk
+    subst hk; exact ⟨2, by decide⟩
+  · intro a _ hk _
+    simp only [List.map_cons, List.map_nil, List.mem_singleton] at hk
+    subst hk; exact ⟨2, by decide⟩
+  · intro a _ hk _
+    simp only [List.map_cons, List.map_nil, List.mem_singleton] at hk
+    subst hk; exact ⟨9, by decide⟩
+
+example : (run (newBackend Cfg.current) (Node.init (newBackend Cfg.current)) systemHistory).map
+    (fun nd => [nd.read (newBackend Cfg.current) (.num 0) (.storage 1 2),
+                nd.read (newBackend Cfg.current) (.num 1) (.storage 1 2),
+                nd.read (newBackend Cfg.current) (.num 0) (.classHash 1),
+                nd.read (newBackend Cfg.current) (.num 0) (.classHash 2),
+                nd.read (newBackend Cfg.current) (.num 2) (.nonce 2),
+                nd.read (newBackend Cfg.current) (.hash 3) (.storage 2 9),
+                nd.read (newBackend Cfg.current) (.hash 4) (.storage 2 9)]) =
+    some [some (.ok 5), some (.ok 6), some (.ok 0), some .notfound, some (.ok 0), some (.ok 1), none] := by decide
 
 end Juno.C03.Props
